@@ -367,3 +367,12 @@ def run(ctx):
     from . import C19
     C19.r6_idle_client(ctx, 'C20.R6')  # handles dropped on another thread during a poll are noticed by the post-poll re-check
     C19.r8_last_ref_wakes(ctx, 'C20.R7')
+
+
+_run_rules = run
+
+
+def run(ctx):
+    _run_rules(ctx)
+    from .. import boundaries
+    boundaries.check_writes(ctx, 'C20.RW', 'C20')
